@@ -10,7 +10,7 @@ CONSTANTS
  TxLock <- U_TxLock
  TxWit <- U_TxWit
  SlotParent <- U_SlotParent
- NFund = 4
+ NFund = 6
  Maturity = 1
  RejectRepl = FALSE
  MaxOrphans = 0
@@ -30,6 +30,7 @@ CONSTANTS
  Variants <- U_Variants
  CbWeight <- U_CbWeight
  H0 = 2
+ SubsidyInterval = 150
  HardDiff = FALSE
  CommitWeight = 224
 INIT Init
